@@ -385,6 +385,13 @@ def _unify(a, b, what):
     if b == ONE:
         return a
     la, lb = axis_len(a), axis_len(b)
+    if la != lb and 1 in (la, lb) and is_labelled(a) and is_labelled(b):
+        one, many = (a, b) if la == 1 else (b, a)
+        raise ModelViolation(
+            f"{what} stretches an axis over the single item {list(one)} along an axis over items {list(many)}: NumPy broadcasts a "
+            f"length-1 axis silently, so the value of that one item is used for every item")
+    if la != lb and 1 in (la, lb):
+        return a if lb == 1 else b      # NumPy broadcasting of a length-1 axis
     if la != lb:
         raise NumpyRaise("ValueError", f"{what}: operands could not be broadcast together (lengths {la} and {lb})")
     raise ModelViolation(
